@@ -1,42 +1,89 @@
-(* C19 — what a transparent cache promises, without implementation vocabulary. *)
+(* C19 — what a transparent cache promises, without implementation vocabulary
+   (only the observable events of Model.v are used). *)
 From Coq Require Import ZArith List Bool.
 Import ListNotations.
 From KD Require Import C19.Model.
 Open Scope Z_scope.
 
 Definition mem (i : Z) (l : list Z) : bool := existsb (Z.eqb i) l.
+Definition has (base : Z -> option Z) (i : Z) : bool := match base i with Some _ => true | None => false end.
+Definition bump (cnt : nat -> nat) (p : nat) : nat -> nat := fun q => if Nat.eqb q p then S (cnt q) else cnt q.
 
-(* Sequential histories: what one process observes and which loads reach the wrapped
-   dataset.  [seen] = indices accessed since the last clear.  Every access returns
-   transform(base[i]); the wrapped dataset is asked exactly when i was not accessed
-   since the last clear. *)
-Fixpoint spec_seq (base tf : Z -> Z) (seen : list Z) (prog : list cmd) : list ev :=
-  match prog with
+(* what `cached[i]` must give: the transform (with this access' own draw) of the wrapped
+   dataset's sample, or the wrapped dataset's own exception *)
+Definition expected (base : Z -> option Z) (tf : Z -> Z -> Z) (draw : Z) (i : Z) : res :=
+  match base i with Some v => RVal (tf draw v) | None => RBaseError end.
+
+(* Sequential histories: the complete event list.  [seen] = indices whose sample was
+   fetched since the last clear; [cnt p] = transform calls of p so far.  Every access
+   returns transform(base[i]) with a fresh draw; the wrapped dataset is asked exactly
+   when i was not fetched since the last clear. *)
+Fixpoint spec_seq (base : Z -> option Z) (blen : Z) (tf : Z -> Z -> Z) (draws : nat -> nat -> Z)
+         (seen : list Z) (cnt : nat -> nat) (hist : list (nat * cmd)) : list ev :=
+  match hist with
   | [] => []
-  | CClear :: r => EClear 0 :: spec_seq base tf [] r
-  | CGet i :: r =>
-      (if mem i seen then [] else [ELoad 0 i]) ++ ERet 0 i (RVal (tf (base i)))
-      :: spec_seq base tf (i :: seen) r
+  | (p, CClear) :: r => EClear p :: spec_seq base blen tf draws [] cnt r
+  | (p, CLen) :: r => ELen p blen :: spec_seq base blen tf draws seen cnt r
+  | (p, CGet i) :: r =>
+      (if mem i seen then [] else [ELoad p i])
+      ++ ERet p i (cnt p) (expected base tf (draws p (cnt p)) i)
+      :: spec_seq base blen tf draws (if has base i then i :: seen else seen)
+                  (if has base i then bump cnt p else cnt) r
   end.
 
-Definition rets (l : list ev) : list (Z * res) :=
-  flat_map (fun e => match e with ERet _ i r => [(i, r)] | _ => [] end) l.
-Definition gets (prog : list cmd) : list Z :=
-  flat_map (fun c => match c with CGet i => [i] | CClear => [] end) prog.
-
-(* no index is loaded twice without a clear in between *)
-Fixpoint loads_once (seen : list Z) (l : list ev) : Prop :=
+(* no existing sample is loaded twice without a clear in between *)
+Fixpoint loads_once (base : Z -> option Z) (seen : list Z) (l : list ev) : Prop :=
   match l with
   | [] => True
-  | ELoad _ i :: r => ~ In i seen /\ loads_once (i :: seen) r
-  | EClear _ :: r => loads_once [] r
-  | _ :: r => loads_once seen r
+  | ELoad _ i :: r => (In i seen -> base i = None) /\ loads_once base (i :: seen) r
+  | EClear _ :: r => loads_once base [] r
+  | _ :: r => loads_once base seen r
   end.
 
-(* concurrent histories: every value any process ever gets back is transform(base[i]) *)
-Definition values_equal_base (base tf : Z -> Z) (l : list ev) : Prop :=
-  forall p i v, In (ERet p i (RVal v)) l -> v = tf (base i).
-Definition no_error (l : list ev) : Prop := forall p i, ~ In (ERet p i RKeyError) l.
+Definition no_get (i : Z) (h : list (nat * cmd)) : Prop := forall p, ~ In (p, CGet i) h.
+Definition pids_below (n : nat) (h : list (nat * cmd)) : Prop := Forall (fun pc => (fst pc < n)%nat) h.
+
+(* Concurrent histories (any interleaving). *)
+(* every value any process ever gets back is transform(base[i]) with that access' own draw;
+   the wrapped dataset's exception comes out only where the wrapped dataset raises *)
+Definition values_equal_base (base : Z -> option Z) (tf : Z -> Z -> Z) (draws : nat -> nat -> Z) (l : list ev) : Prop :=
+  forall p i k r, In (ERet p i k r) l -> r = RKeyError \/ r = expected base tf (draws p k) i.
+Definition no_error (l : list ev) : Prop := forall p i k, ~ In (ERet p i k RKeyError) l.
+(* both together: the cache is transparent *)
+Definition transparent (base : Z -> option Z) (tf : Z -> Z -> Z) (draws : nat -> nat -> Z) (l : list ev) : Prop :=
+  forall p i k r, In (ERet p i k r) l -> r = expected base tf (draws p k) i.
+
+(* the transform runs on every successful access: the accesses of p that returned a value
+   carry the call numbers 0, 1, 2, ... in this order *)
+Definition calls_of (p : nat) (l : list ev) : list nat :=
+  flat_map (fun e => match e with
+                     | ERet q _ k (RVal _) => if Nat.eqb q p then [k] else []
+                     | _ => [] end) l.
+Definition transform_every_access (l : list ev) : Prop :=
+  forall p, calls_of p l = seq 0 (length (calls_of p l)).
 
 (* the cache only ever holds samples of the wrapped dataset *)
-Definition dict_ok (base : Z -> Z) (d : dict) : Prop := Forall (fun kv => snd kv = base (fst kv)) d.
+Definition dict_ok (base : Z -> option Z) (d : dict) : Prop := Forall (fun kv => base (fst kv) = Some (snd kv)) d.
+
+(* executable versions used by Check.v *)
+Definition res_eqb (a b : res) : bool :=
+  match a, b with
+  | RVal x, RVal y => x =? y
+  | RKeyError, RKeyError => true
+  | RBaseError, RBaseError => true
+  | _, _ => false
+  end.
+Definition ev_eqb (a b : ev) : bool :=
+  match a, b with
+  | ELoad p i, ELoad q j => Nat.eqb p q && (i =? j)
+  | EClear p, EClear q => Nat.eqb p q
+  | ERet p i k r, ERet q j k' r' => Nat.eqb p q && (i =? j) && Nat.eqb k k' && res_eqb r r'
+  | ELen p n, ELen q m => Nat.eqb p q && (n =? m)
+  | _, _ => false
+  end.
+Definition transparentb (base : Z -> option Z) (tf : Z -> Z -> Z) (draws : nat -> nat -> Z) (l : list ev) : bool :=
+  forallb (fun e => match e with
+                    | ERet p i k r => res_eqb r (expected base tf (draws p k) i)
+                    | _ => true end) l.
+Definition dict_okb (base : Z -> option Z) (d : dict) : bool :=
+  forallb (fun kv => match base (fst kv) with Some v => v =? snd kv | None => false end) d.
